@@ -1188,19 +1188,18 @@ impl DcpsDomainParticipant {
                                     data_writer
                                         .status_condition
                                         .add_communication_state(StatusKind::PublicationMatched);
-                                } else {
-                                    data_writer
-                                        .incompatible_subscriptions
-                                        .add_incompatible_subscription(
-                                            InstanceHandle::new(
-                                                discovered_reader_data
-                                                    .dds_subscription_data
-                                                    .key()
-                                                    .value,
-                                            ),
-                                            incompatible_qos_policy_list,
-                                        );
-
+                                } else if data_writer
+                                    .incompatible_subscriptions
+                                    .add_incompatible_subscription(
+                                        InstanceHandle::new(
+                                            discovered_reader_data
+                                                .dds_subscription_data
+                                                .key()
+                                                .value,
+                                        ),
+                                        incompatible_qos_policy_list,
+                                    )
+                                {
                                     if data_writer
                                         .listener_mask
                                         .is_enabled(&StatusKind::OfferedIncompatibleQos)
@@ -1728,14 +1727,12 @@ impl DcpsDomainParticipant {
                                     data_reader
                                         .status_condition
                                         .add_communication_state(StatusKind::SubscriptionMatched);
-                                } else {
-                                    data_reader.add_requested_incompatible_qos(
-                                        InstanceHandle::new(
-                                            discovered_writer_data.dds_publication_data.key().value,
-                                        ),
-                                        incompatible_qos_policy_list,
-                                    );
-
+                                } else if data_reader.add_requested_incompatible_qos(
+                                    InstanceHandle::new(
+                                        discovered_writer_data.dds_publication_data.key().value,
+                                    ),
+                                    incompatible_qos_policy_list,
+                                ) {
                                     if data_reader
                                         .listener_mask
                                         .is_enabled(&StatusKind::RequestedIncompatibleQos)
@@ -3455,12 +3452,14 @@ impl PublicationMatchedStatus {
 }
 
 impl IncompatibleSubscriptions {
+    /// Returns true if the subscription was not yet known to be incompatible
     fn add_incompatible_subscription(
         &mut self,
         handle: InstanceHandle,
         incompatible_qos_policy_list: Vec<QosPolicyId>,
-    ) {
-        if !self.incompatible_subscription_list.contains(&handle) {
+    ) -> bool {
+        let is_new = !self.incompatible_subscription_list.contains(&handle);
+        if is_new {
             self.offered_incompatible_qos_status.total_count += 1;
             self.offered_incompatible_qos_status.total_count_change += 1;
             self.offered_incompatible_qos_status.last_policy_id = incompatible_qos_policy_list[0];
@@ -3484,6 +3483,7 @@ impl IncompatibleSubscriptions {
                 }
             }
         }
+        is_new
     }
 
     fn get_offered_incompatible_qos_status(&mut self) -> OfferedIncompatibleQosStatus {
